@@ -248,6 +248,27 @@ def run(chk):
                 chk.bad('C32-invert', 'Predicate::invert', nm, 'invert(%s) yields a predicate denoting %s relative to the constant; the complement of %s is %s' %
                         (nm, sorted(got), sorted(SETS[base]), sorted(want)), FILE, arm['l'])
     chk.floor('invert rows', rows, 8)
+    # ---- compound arms of invert: the complement of a conjunction / disjunction depends on every field of its members
+    inv = fx.fn(FILE, 'Predicate::invert')
+    for m_ in T.walk(inv['body']):
+        if m_.get('k') != 'Match':
+            continue
+        for arm_ in m_['arms']:
+            if not any(T.last_seg(v) in ('And', 'Or') for v in T.pat_variants(arm_['pat'])):
+                continue
+            # every struct sub-pattern reached for this arm (in its own pattern or in a nested match over the bound operands)
+            pats = [arm_['pat']] + [a2['pat'] for m2 in T.walk(arm_['b']) if m2.get('k') == 'Match' for a2 in m2['arms']]
+            for p_ in pats:
+                for q in T.walk(p_):
+                    if q.get('k') == 'PStruct' and T.last_seg(q.get('d') or '') in set(SETS) | set(GENERAL):
+                        dropped = q.get('rest') or any(fl['p'].get('k') == 'Wild' for fl in q.get('f', []))
+                        inst = 'compound:%s:%s' % ('|'.join(sorted(T.last_seg(v) for v in T.pat_variants(arm_['pat']) if T.last_seg(v) in ('And', 'Or'))), T.last_seg(q['d']))
+                        if dropped:
+                            chk.bad('C32-invert', 'Predicate::invert', inst, 'invert has an arm over a conjunction / disjunction that matches `%s { .. }` without looking at all its fields: the '
+                                    'complement it builds ignores a constant — `!(x >= 0 and x != 2)` becomes `x <= 0`, which contains 0 and excludes 2' % T.last_seg(q['d']), FILE, arm_.get('l'))
+                        else:
+                            chk.ok('C32-invert', (inst, arm_.get('l')))
+        break
     # ---- constant rows
     for fname, unit, zero in (('and', True, False), ('or', False, True)):
         f = fx.fn(FILE, 'Predicate::' + fname)
